@@ -124,6 +124,11 @@ impl Parser {
                 }
             }
 
+            // see `assignment_no_type`: a variable may not get the element-less type of `[]`
+            if type_at_idx.has_list_without_element_type() {
+                return Err(vec![new_err(ident_span, file_name, format!("the element type of `{type_at_idx}` cannot be inferred here; unpack from a value whose lists have a declared element type"))]);
+            }
+
             let cloned = type_at_idx.clone().into_owned();
             ident
                 .link_force_no_inherit(input.user_data(), Cow::Owned(cloned))
